@@ -12,6 +12,10 @@ CHECKS = {
   text="Lean theorems: the selector filter (table extracted from handlers/base.py on every run) is closed under substrings, a secure selector has no '..' component, no NUL, no doubled or back-slash separator, and the lexically normalised path root+selector stays under the root, for all strings. Tie: filter verdicts, unquote, slashnormalize, virtual split, UTF-8 surrogateescape decode and quote agree with the real code on exhaustive short and seeded long inputs. Oracle: two-world non-interference with audit of every open/listdir/exec, hostile catalogue answered not-found, both handler lists, eight protocol syntaxes.",
   note="partial: kernel path resolution and symlinks are assumptions (no symlink leaves the root); Lean kernel + propext/Classical.choice/Quot.sound; extractor and Python harness trusted",
   technique="Lean 4 proof over extracted filter table + differential correspondence + two-world oracle"),
+ "C02": dict(
+  text="Lean theorems for all request lines and header blocks: the answering protocol is the first in the configured order whose predicate accepts (everything before it rejects), its `secure` flag equals the connection's TLS flag for all nine classes, the shipped list (extracted from conf/pygopherd.conf) is total because both catch-alls are present, detection is a function of (order, TLS flag, first line, header lines); documented shapes of Gopher+, HTTP, Gemini, Spartan; the sniff is TLS iff first byte 0x16 and consumes nothing. Tie: class chosen by the real ProtocolMultiplexer vs the model on a near-miss grammar, both TLS values, shipped order and seeded permutations/sub-lists; wrap_socket on a socketpair for all 256 first bytes (complete).",
+  note="partial: MSG_PEEK in the kernel and the TLS record layer are runtime; the WAP header regex is mirrored by hand; Lean kernel + standard axioms; harness trusted",
+  technique="Lean 4 proof of the detection model + differential correspondence + exhaustive first-byte enumeration"),
  "C19": dict(
   text="Lean theorems for every option combination and every fault position (unbounded index) of the start-up model: bind and key loading precede any privilege drop, chroot then chdir('/') then setgroups(()) then setregid then setreuid, root rewritten to '/', failure of any step aborts with nothing executed after it. Tie is complete and kernel-checked: the real initialize() is executed under substituted system calls on all 16 x (1 + fault positions) points and `table_agrees` proves the executed table equals the model's.",
   note="trusted: the substitution of os/pwd/grp/socket/ssl entry points observes every privileged call; kernel behaviour of the real system calls and the detach fork are not modelled",
